@@ -40,14 +40,15 @@ Inductive eclass :=
 | EResponse        (* ntp.errUnexpectedResponse *)
 | EScionDecode     (* gopacket DecodeLayers error (SCION client) *)
 | EScionAuth       (* errInvalidPacketAuthenticator (SCION client) *)
-| EClock.          (* ntp.errUnexpectedClockBehavior: the client's receive stamp is before its transmit stamp *)
+| EClock           (* ntp.errUnexpectedClockBehavior: the client's receive stamp is before its transmit stamp *)
+| ENoMeasurement.  (* client.errNoMeasurement: no client of MeasureClockOffsetSCION measured successfully *)
 
 Definition eclass_code (e : eclass) : Z :=
   match e with
   | ERead => 1 | EFlags => 2 | ESource => 3 | ESize => 4 | ETooLong => 5 | EShortExt => 6
   | EShortUid => 7 | ENoUid => 8 | ENoAuth => 9 | ERespId => 10 | EKeySize => 11
   | ENonceLen => 12 | ENotAuthentic => 13 | EUnexpected => 14 | EResponse => 15
-  | EScionDecode => 16 | EScionAuth => 17 | EClock => 18
+  | EScionDecode => 16 | EScionAuth => 17 | EClock => 18 | ENoMeasurement => 19
   end.
 
 Inductive res (A : Type) :=
@@ -500,10 +501,16 @@ Section Client.
     {| s_has := false; s_il := s_il st; s_ctx := s_ctx st; s_crx := s_crx st; s_srx := s_srx st |}.
 
   (* MeasureClockOffsetSCION with one client and one path: the measurement is
-     stored only if its Error is nil, and FaultTolerantMidpoint is then taken
-     over the whole slice of one element, which is the zero Measurement
-     (time zero, offset 0, Error nil) if nothing was stored *)
+     stored only if its Error is nil; n = collectMeasurements(...); n == 0 is
+     errNoMeasurement, otherwise FaultTolerantMidpoint(ms[:n]) of the one
+     stored measurement is that measurement *)
   Definition scion_return (cr : call_result) : call_result :=
+    match cr with CError _ => CError ENoMeasurement | x => x end.
+
+  (* before fix 3dfc5bf the count was ignored and the midpoint was taken over
+     the whole slice of one element: the zero Measurement (time zero, offset 0,
+     Error nil) if nothing was stored *)
+  Definition scion_return_pinned (cr : call_result) : call_result :=
     match cr with CError _ => COffset 0 0 | x => x end.
 
   (* a history of one client: calls, and ResetInterleavedMode in between *)
